@@ -6,6 +6,7 @@ Every complete schedule of each driver is executed on the real sampler; the leaf
 the result bit-for-bit with the sequential reference (max_parallel_batches=1, lazy client) and
 monitors check ordering, the outstanding bound and client emptiness.
 """
+import os
 import numpy as np
 
 from .. import explore, models, pin
@@ -131,7 +132,7 @@ def run_tree(case):
                 return ('result', 'differs from sequential reference', {'got': obs['brief'], 'ref': ref['brief']})
             return None
         st = explore.explore(body, check, bound=case.get('bound'), prune=case.get('prune', True),
-                             max_executions=case.get('max_executions'))
+                             max_executions=case.get('max_executions', TREE_CAP))
     res = {'viol': None, 'outcome': None, 'trivial': st['executions'] <= 1,
            'cnt': {'executions': st['executions'], 'complete': st.get('complete', 0), 'pruned': st.get('pruned', 0),
                    'choice_points': st['choice_points'], 'capped': int(st['capped']),
@@ -246,7 +247,7 @@ def run_subtree(case):
             outcomes.add(obs['result'])
             return _leaf_verdict(obs, ref)
         st = explore.explore(make_body(case), check, bound=case.get('bound'), prune=False, root=case['prefix'],
-                             max_executions=case.get('max_executions'))
+                             max_executions=case.get('max_executions', SUBTREE_CAP))
     res = {'viol': None, 'executions': st['executions'], 'logs': sorted(logs), 'outcomes': sorted(outcomes),
            'capped': st['capped'], 'choice_points': st['choice_points']}
     if st['violations']:
@@ -315,6 +316,16 @@ def explore_in_waves(ctx, case, split_levels=2, section='unpruned-wave-trees'):
         ctx.exhaustive = False
     return res
 
+
+# (lowest, highest) number of batches the sequential run of a driver may consume for a seed to be used
+BATCH_WINDOW = {'rej-thr': (2, 5), 'rej-thr-rare': (3, 6), 'smc-thr': (4, 9), 'smc-quant': (4, 6), 'smc-thr3': (4, 6),
+                'adsmc': (4, 9), 'rej-thr-8b': (6, 8)}
+
+# The size of a schedule tree depends on how many batches the seeded run consumes (threshold objectives: on the draws), so
+# it grows by orders of magnitude for some seeds.  Every tree has an execution cap; a tree that hits it is reported as
+# capped (evidence: trees[].capped, exhaustive=false) with what was covered below the cap.
+TREE_CAP = int(os.environ.get('VMC_C04_TREE_CAP', 150000))
+SUBTREE_CAP = int(os.environ.get('VMC_C04_SUBTREE_CAP', 40000))
 
 RUNNERS = {'tree': run_tree, 'schedule': run_schedule, 'freerun': run_freerun, 'node': run_node, 'subtree': run_subtree}
 
@@ -397,6 +408,32 @@ def run(ctx):
             cases.append({'kind': 'tree', 'driver': d, 'mpb': 3, 'seed': seed0, 'prune': False, 'bound': 3,
                           'default': 'eager'})
 
+    # The schedule tree of a threshold / quantile-round objective grows exponentially with the number of batches the seeded
+    # run consumes, and that number varies from 1 to 50 between seeds.  The k-th seed of a driver is therefore the k-th seed
+    # >= the base seed whose sequential run consumes a number of batches inside the driver's window (stated in evidence).
+    chosen = {}
+
+    def seed_of(d, k):
+        lo, hi = BATCH_WINDOW.get(d, (0, 10 ** 9))
+        got = chosen.setdefault(d, [])
+        s_ = (got[-1][0] + 1) if got else seed0
+        while len(got) <= k:
+            with pin.pinned(0):
+                r = reference({'driver': d, 'seed': s_, 'mpb': 1})
+            nb = int(r['brief']['n_sim']) // DRIVERS[d][2] if not r['monitor'] and r['brief'].get('n_sim') else lo
+            if lo <= nb <= hi:
+                got.append((s_, nb))
+            s_ += 1
+            if s_ > seed0 + 400:
+                raise AssertionError('C04 harness: no seed with a reference run inside the batch window for %s' % d)
+        return got[k][0]
+    models.native_client()
+    for c in cases:
+        c['seed'] = seed_of(c['driver'], c['seed'] - seed0)
+    ctx.extra['seeds_by_driver'] = {d: [{'seed': a, 'batches_of_sequential_run': b} for a, b in v]
+                                    for d, v in sorted(chosen.items())}
+    ctx.extra['batch_window_by_driver'] = {d: list(v) for d, v in BATCH_WINDOW.items()}
+
     def fn(case):
         return case, run_tree(case)
     results = list(par.pmap(fn, cases, chunksize=1, ordered=True))
@@ -420,15 +457,15 @@ def run(ctx):
     # (2b) thorough: complete UNPRUNED trees at max_parallel_batches=3 (threshold mode: ~10^5 schedules), wave-parallel
     if not q:
         for d in ('rej-thr-rare', 'rej-nsim-odd', 'smc-quant'):
-            wres = explore_in_waves(ctx, {'driver': d, 'mpb': 3, 'seed': seed0}, split_levels=2)
-            other = by_key.get((d, 3, seed0, 'shared', True, None))
+            wres = explore_in_waves(ctx, {'driver': d, 'mpb': 3, 'seed': seed_of(d, 0)}, split_levels=2)
+            other = by_key.get((d, 3, seed_of(d, 0), 'shared', True, None))
             if other is not None and not wres.get('viol') and not other.get('viol'):
                 if set(other['outcomes']) != set(wres['outcomes']):
                     raise AssertionError('pruned and unpruned exploration disagree on the outcome set for %s mpb=3' % d)
                 ctx.count(pruning_cross_checks=1)
     # (3) free-running cross-check with real worker processes
     if not q:
-        fr = [{'kind': 'freerun', 'driver': d, 'mpb': mpb, 'procs': 2, 'seed': seed0}
+        fr = [{'kind': 'freerun', 'driver': d, 'mpb': mpb, 'procs': 2, 'seed': seed_of(d, 0)}
               for d in ('rej-nsim', 'rej-thr', 'smc-thr') for mpb in (1, 2, 3, 5)]
         for case in fr:
             ctx.record(case, run_freerun(case), 'freerun')
@@ -443,4 +480,7 @@ def run(ctx):
         'cross-checked against the unpruned tree for mpb=2 drivers (same outcome sets)',
         'AdaptiveDistanceSMC is explored with one driver; AdaptiveThresholdSMC and the dask/ipyparallel clients are not',
         'result equality is bitwise on outputs, thresholds, n_sim, n_batches and SMC population tables',
+        'seeds: the k-th seed of a driver is the k-th seed >= 1000*VERIF_SEED+3 whose sequential run consumes a number of '
+        'batches inside the window of the driver (coverage.batch_window_by_driver; chosen seeds in coverage.seeds_by_driver): '
+        'tree size is exponential in that number; every tree additionally has an execution cap (trees[].capped)',
     ]
